@@ -10,7 +10,7 @@ CONSTANTS K, MaxSrc, NSample
 Srcs == UNION {[1..n -> 1..K] : n \in 0..MaxSrc}
 Reruns(wr, nb) == IF wr = "cli"
                   THEN <<[nbuf |-> (nb % 3) + 1, delivery |-> "file", sched |-> "natural"], [nbuf |-> 8, delivery |-> "pipe", sched |-> "natural"],
-                         [nbuf |-> 2, delivery |-> "fifo", sched |-> "natural"]>>
+                         [nbuf |-> 2, delivery |-> "fifo", sched |-> "natural"], [nbuf |-> 3, delivery |-> "file", sched |-> "jitter"]>>
                   ELSE <<[nbuf |-> (nb % 3) + 1, delivery |-> "file", sched |-> "natural"], [nbuf |-> 64, delivery |-> "pipe", sched |-> "natural"]>>
 IdScen == {[writer |-> wr, nbuf |-> nb, src |-> s, bs |-> 64, ctype |-> 0, hl |-> 64, meta |-> 0, delivery |-> "file", transport |-> "local",
             sched |-> "natural", reruns |-> Reruns(wr, nb)] : wr \in {"lib", "cli"}, nb \in {1, 2, 3}, s \in Srcs}
@@ -41,7 +41,8 @@ ClassScen == {LET lc == LenSeq[(i % Len(LenSeq)) + 1]
                delivery |-> RandomElement({"file", "pipe", "fifo"}), transport |-> RandomElement({"local", "http"}), sched |-> "natural", idx |-> i,
                over_existing |-> RandomElement({"none", "none", "longer", "shorter", "none+tmplong", "longer+tmplong", "none+tmpshort"}),
                avg_off |-> RandomElement({"pow2", "pow2", "plus1", "max", "mid"}),
-               reruns |-> IF lc = "gt1mib" THEN <<>> ELSE <<[nbuf |-> RandomElement({1, 2, 3, 8, 64}), delivery |-> RandomElement({"file", "pipe"}), sched |-> "natural"]>>]
+               reruns |-> IF lc = "gt1mib" THEN <<>> ELSE <<[nbuf |-> RandomElement({1, 2, 3, 8, 64}), delivery |-> RandomElement({"file", "pipe"}),
+                                                                sched |-> IF wr = "cli" THEN RandomElement({"natural", "natural", "jitter"}) ELSE "natural"]>>]
               : i \in 1..NSample}
 
 \* sources of more than 8 MiB (incompressible, so the stored chunk data is that long too), every writer x algorithm x transport
